@@ -27,9 +27,9 @@ def annotate_type(rng, e, parent=None, p=0.5):
         e['args'] = [annotate_type(rng, a, e['prim'], p) if isinstance(a, dict) and 'prim' in a else a for a in e['args']]
     an = []
     if parent in ('pair', 'or') and rng.random() < p:
-        an.append('%' + rng.choice(['a', 'b', 'fld', 'x1', 'default', 'amount', '']))      # '' = the bare annotation `%`
+        an.append('%' + rng.choice(['a', 'b', 'fld', 'x1', 'default', 'amount', '', 'f' * 31, 'g' * 32, 'a_rather_long_field_name_0123456789_0123456789', 'h' * 255]))      # '' = the bare annotation `%`; field names may be long (255), unlike entrypoints
     if rng.random() < p / 3:
-        an.append(':' + rng.choice(['t', 'ty', 'storage', '']))
+        an.append(':' + rng.choice(['t', 'ty', 'storage', '', 't' * 32]))
     if an:
         e['annots'] = an
     return e
